@@ -239,9 +239,6 @@ func (e *env) runHTTP(rec *httpRec, c *ck.RecCache, run func(c *ck.RecCache) ck.
 		adv = f.Remaining + 3*time.Second
 	}
 	tmp := &caseRec{Mechanism: "http_cache", TTL: rec.Response.DefaultTTL.String(), TTLMode: "prototype"}
-	if adv > 0 && adv <= realSleepMax && c.Backend == ck.BackendMemory && rec.Response.Date != "" {
-		adv = 0 // ration real sleeps: only the plain variants
-	}
 	e.runPhases(tmp, c, adv, run)
 	rec.Phases, rec.Advance = tmp.Phases, tmp.Advance
 	judgeHTTP(rec)
